@@ -456,7 +456,10 @@ class Context:
     def _create_error_constructor(self, error_name: str) -> JSCallableObject:
         """Create an Error constructor (Error, TypeError, SyntaxError, etc.)."""
         # Add prototype first so it can be captured in closure
-        error_prototype = JSObject()
+        # TypeError.prototype etc. inherit from Error.prototype (created first)
+        error_prototype = JSObject(getattr(self, "_error_prototype", None))
+        if error_name == "Error":
+            self._error_prototype = error_prototype
         error_prototype.set("name", error_name)
         error_prototype.set("message", "")
 
